@@ -14,6 +14,13 @@
   `Prints ctx t s` (= `PExpr`) is the FULL language (it includes the forms the code accepts
   beyond the conventional ones: a '+' in front of a number, `5.`, `.5`, `inf`, `nan`);
   `Conv t` singles out the conventional trees/renderings used by C06.
+
+  The tokens are maximal: in a string of the language a name or a number word (`inf`, `nan`) is
+  never directly followed by a further letter, simply because an atom is followed by an operator,
+  a closing parenthesis or the end of the text.  The code agrees with this since the repair of
+  `parse_const` (a number word directly followed by a letter is not a number), so the language is
+  the accepted language for every context in which no registered name is itself `inf` or `nan`
+  (`CtxOK'` below).
 -/
 import Cav.Model.Parse
 
@@ -104,8 +111,27 @@ end
 /-- the language of `compile_expression` after whitespace removal -/
 abbrev Prints (ctx : Ctx) (t : E) (s : List Char) : Prop := PExpr ctx t s
 
-/-- no registered name is shadowed by the number lexer: names that can be reached are ASCII
-    words, and none of them starts (case-insensitively) with `nan` or `inf` -/
+/-- the side condition of completeness (`Thm/C06Print.parse_print`): the context passes the arity
+    check of `compile_expression`, and no registered name IS one of the two number words `nan`,
+    `inf` (in any case).  Such a name would make the grammar ambiguous — `inf` would be both a
+    number leaf and a name — and the code resolves it in favour of the number.
+
+    Names that merely START with such a word (`info`, `nano`, `infinity`, `nanometre`) are fine
+    since the repair of `parse_const`: `nom`'s `double` still consumes the word, but the result is
+    discarded when the consumed text ends with a letter and a letter follows, so the whole name
+    reaches `parse_func` / `parse_var`.  The relations above need no side condition for that:
+    in a string of the language a number word is never followed by a letter, because whatever
+    follows an atom is an operator, a closing parenthesis or the end of the text
+    (`Lemmas/GrammarRuns.prints_letter_runs`: every maximal letter run of a string of the
+    language is one complete token). -/
+def CtxOK' (arity : Nat) (ctx : Ctx) : Prop :=
+  (∀ p ∈ ctx, ∀ i, p.2 = .var i → i < arity) ∧
+  (∀ p ∈ ctx, p.1.toList.map lower ≠ ['n', 'a', 'n'] ∧ p.1.toList.map lower ≠ ['i', 'n', 'f'])
+
+/-- the side condition that was needed BEFORE the repair of `parse_const` (kept for reference; it
+    implies `CtxOK'`, `Thm/C06Print.ctxOK_weaken`): `double` was tried before names and its word
+    match was final, so a registered name was shadowed as soon as it STARTED (case-insensitively)
+    with `nan` or `inf` -/
 def CtxOK (arity : Nat) (ctx : Ctx) : Prop :=
   (∀ p ∈ ctx, ∀ i, p.2 = .var i → i < arity) ∧
   (∀ p ∈ ctx, (p.1.toList.take 3).map lower ≠ ['n', 'a', 'n'] ∧ (p.1.toList.take 3).map lower ≠ ['i', 'n', 'f'])
